@@ -61,11 +61,14 @@ var (
 	claimKey = simapi.Key{Group: "ex.org", Kind: "Thing", Namespace: ns, Name: claimName}
 )
 
+var debug bool
+
 func xrKey(name string) simapi.Key { return simapi.Key{Group: "ex.org", Kind: "XThing", Name: name} }
 
 type counters struct {
 	StaleServed   int `json:"stale_reads_served"`
 	StaleMiss     int `json:"stale_index_missing"`
+	StaleMissOff  int `json:"stale_index_missing_in_sweep_or_off_model_runs"`
 	StaleGone     int `json:"stale_reads_after_claim_gone"`
 	XRCreates     int `json:"xr_created_by_claim"`
 	XRBinds       int `json:"xr_bound_by_claim"`
@@ -104,6 +107,7 @@ type world struct {
 	lastRef   string
 	preRef    string // claimRef of the XR addressed by the call in flight, read just before the call
 	claimUID  types.UID
+	offModel  bool // a sweep / off-model fault variant: the store's history need not be the one the model predicted
 }
 
 // seedFor makes the name generator's random stream a function of the run's
@@ -270,6 +274,11 @@ func (w *world) onEvent(e *simapi.Event) {
 		}
 	}
 	applied := e.Applied && !e.DryRun
+	if debug && e.IsWrite() && e.PreObj != nil && e.PostObj != nil {
+		a, _ := json.Marshal(e.PreObj.Object)
+		b, _ := json.Marshal(e.PostObj.Object)
+		fmt.Fprintf(os.Stderr, "DEBUG %s rec %d idx %d %s\n  pre  %s\n  post %s\n", w.scenID, w.recNo, e.Idx, abs, a, b)
+	}
 	stale := 0
 	if abs == "get:claim" {
 		stale = w.staleUsed
@@ -393,7 +402,7 @@ func newWorld(tw *trace.Writer, cnt *counters, id string, init map[string]any, s
 		lastRef: "none", pName: pName}
 	w.syncer = scen.Str(init, "syncer")
 	w.conn, _ = init["conn"].(bool)
-	fg, _ := init["fg"].(bool)
+	fg := init["fg"] == true || init["fg"] == "fg"
 	pre, ref0 := scen.Str(init, "pre"), scen.Str(init, "ref0")
 	w.ids[pName], w.names[preID] = preID, pName
 	ctx := context.Background()
@@ -428,7 +437,10 @@ func newWorld(tw *trace.Writer, cnt *counters, id string, init map[string]any, s
 			must(envc.Create(ctx, x))
 		}
 	case "unbound":
-		must(envc.Create(ctx, newXR(pName, ""), client.FieldOwner("kubectl")))
+		// statically provisioned by a user (with something of its own, so that it has a managedFields entry like every real object)
+		x := newXR(pName, "")
+		x.SetAnnotations(map[string]string{"example.org/provisioned-by": "user"})
+		must(envc.Create(ctx, x, client.FieldOwner("kubectl")))
 	case "mine":
 		must(envc.Create(ctx, newXR(pName, claimName)))
 	case "absent":
@@ -456,12 +468,16 @@ func newWorld(tw *trace.Writer, cnt *counters, id string, init map[string]any, s
 		v := w.staleV
 		w.staleV = 0
 		if v > len(versions) || versions[v-1] == nil {
-			w.cnt.StaleMiss++
+			if w.offModel {
+				w.cnt.StaleMissOff++
+			} else {
+				w.cnt.StaleMiss++
+			}
 			return nil, false
 		}
 		w.staleUsed = v
 		w.cnt.StaleServed++
-		if w.s.Peek(claimKey) == nil {
+		if versions[len(versions)-1] == nil { // (the server lock is held here: no Peek)
 			w.cnt.StaleGone++
 		}
 		return versions[v-1], true
@@ -564,7 +580,18 @@ func run(tw *trace.Writer, cnt *counters, id string, hist []replay.Entry, varian
 	if pName != staticP {
 		cnt.Collisions++
 	}
-	w := newWorld(tw, cnt, id, hist[0].Raw, seed, pName)
+	// the claim's delete policy is part of its spec from the start; the model reveals it when the user deletes the claim
+	init := map[string]any{}
+	for k, v := range hist[0].Raw {
+		init[k] = v
+	}
+	for _, e := range hist {
+		if e.T == "env" && e.K == "delclaim" && e.O != "" {
+			init["fg"] = e.O
+		}
+	}
+	w := newWorld(tw, cnt, id, init, seed, pName)
+	w.offModel = sw != nil || !onModel
 	w.emit("reset", nil)
 	blocks, trailing := replay.Split(hist[1:], func(e replay.Entry) bool { return e.Abs() == "get:claim" })
 	var calls []int
@@ -621,6 +648,7 @@ func main() {
 	chunk := flag.Int("chunk", 0, "split the trace into files of about this many events")
 	sweepN := flag.Int("sweep", 0, "number of scenarios to sweep over every real call index x outcome")
 	seed := flag.Int64("seed", 1, "seed of the name generator's random stream")
+	flag.BoolVar(&debug, "debug", false, "print the stored object before and after every write to stderr")
 	flag.Parse()
 
 	raws, err := scen.Load(*scenarios)
@@ -634,7 +662,7 @@ func main() {
 		os.Exit(2)
 	}
 	cnt := &counters{}
-	sum := &summary{DriftByAbs: map[string]int{}, BySyncer: map[string]int{}, Witness: cnt}
+	sum := &summary{DriftByAbs: map[string]int{}, BySyncer: map[string]int{}, Witness: cnt, DriftExamples: []string{}, Samples: []any{}}
 	dec := map[string]simapi.Decision{"error": simapi.FailError, "conflict": simapi.FailConflict, "crashBefore": simapi.CrashBefore, "crashAfter": simapi.CrashAfter}
 	for i, raw := range raws {
 		var sc struct {
@@ -658,9 +686,15 @@ func main() {
 			os.Exit(2)
 		}
 		sum.Scenarios++
+		// how the behaviour's "fail" entries are to be realised: the model says so on the entries (or, older format, in the init entry)
 		modelV, ok := dec[scen.Str(hist[0].Raw, "fk")]
 		if !ok {
 			modelV = simapi.FailError
+		}
+		for _, e := range hist {
+			if d, ok := dec[scen.Str(e.Raw, "fk")]; ok && e.F == "fail" {
+				modelV = d
+			}
 		}
 		if sc.Variant != "" || sc.Sweep != nil {
 			// a replay file: run exactly what it says
